@@ -67,6 +67,12 @@ def templates(A, B, ka, kb, kt):
             exp = "unresolved"
         forbidden = [t for t, k, cols in (("db.a", ka, A), ("db.b", kb, B)) if k and cname not in cols]
         out.append((f"unqualified_{cname}", f"insert into {T} (tp) select {cname} from db.a join db.b on a.k = b.k", ("attr", cname, owners, forbidden), None))
+    # 4b the same unqualified column feeds several output columns
+    for cname in ("ax", "bx"):
+        owners = [t for t, k, cols in (("db.a", ka, A), ("db.b", kb, B)) if k and cname in cols]
+        forbidden = [t for t, k, cols in (("db.a", ka, A), ("db.b", kb, B)) if k and cname not in cols]
+        out.append((f"unqualified_twice_{cname}", f"insert into {T} (m1, m2, m3) select {cname} as k1, {cname} as k2, {cname} as k3 from db.a join db.b on a.k = b.k",
+                    ("attr", cname, owners, forbidden), "KF-07" if kt else None))
     # 5 insert without column list into a (possibly) known target
     out.append(("insert_positional", f"insert into {T} select a.ax, a.k, a.{A[1]} from db.a a", to_t([["db.a.ax", "ax"], ["db.a.k", "k"], [f"db.a.{A[1]}", A[1]]]), None))
     # 6 explicit list always wins
@@ -181,6 +187,14 @@ def run(tier):
                 bad = "not attributed to exactly the in-scope tables whose metadata lists it"
             elif not owners and got_owners:
                 bad = "attributed although no in-scope table's metadata lists it"
+            elif owners and unresolved:
+                bad = "attributed, yet an un-attributed copy of the column still feeds a target column"
+            elif owners:
+                # every target column the select item feeds must receive the attributed source
+                tgts = {p[1] for p in pairs if p[0].endswith("." + cname)}
+                for tcol in tgts:
+                    if sorted({p[0].rsplit(".", 1)[0] for p in pairs if p[1] == tcol and p[0].endswith("." + cname)}) != sorted(owners):
+                        bad = "a target column fed by the column does not receive exactly the attributed sources"
             if bad:
                 run_.judge(b, "unqualified_column_attribution", {"problem": bad, "column": cname, "expected_owners": owners, "observed_owners": got_owners,
                                                                  "unresolved": unresolved, "forbidden": forbidden}, kf_id=None)
